@@ -29,6 +29,29 @@ fn has_poetic_spelling(v: &Reported) -> bool {
     }
 }
 
+/// does `hay` contain `needle` as a token of its own (not glued to letters, digits, `.` or `-` on a side where the
+/// needle itself ends in one)?  The empty needle is contained in everything.
+fn contains_token(hay: &str, needle: &str) -> bool {
+    if needle.is_empty() {
+        return true;
+    }
+    let glue = |c: char| c.is_alphanumeric() || c == '.' || c == '-';
+    let first = needle.chars().next().unwrap();
+    let last = needle.chars().last().unwrap();
+    let mut from = 0;
+    while let Some(p) = hay[from..].find(needle) {
+        let a = from + p;
+        let b = a + needle.len();
+        let before_ok = !glue(first) || hay[..a].chars().last().map_or(true, |c| !glue(c));
+        let after_ok = !glue(last) || hay[b..].chars().next().map_or(true, |c| !glue(c));
+        if before_ok && after_ok {
+            return true;
+        }
+        from = a + first.len_utf8();
+    }
+    false
+}
+
 /// run a one-line suggestion followed by `say <var>` and return what it prints
 fn run_suggestion(line: &str, var: &Name) -> Result<String, String> {
     let src = format!("{}\nsay {}\n", line, var.text());
@@ -65,6 +88,7 @@ impl Prop for C18 {
     }
     fn assumptions(&self) -> Vec<String> {
         vec![
+            "messages are not compared word by word: a report must name the value and the target as tokens of its issue text; the suggested line is what stands between the first and last backtick of a suggestion (else the whole text); a suggestion is 'poetic' when it shows star-words (numbers) or says/said (strings)".into(),
             "each `*` of a suggestion stands for a letter (a literal `*` is the multiplication token); the executed line has every `*` replaced by `x`".into(),
             "for a statement spanning several lines (multi-line string or comment inside it) any line of the statement is accepted as 'the correct line': the statement does not single one out".into(),
             "suggested numeric literals are compared with the reported value with the tolerance of C11 (exact for integers below 2^53 without a period)".into(),
@@ -124,14 +148,25 @@ impl Prop for C18 {
             // line the statement occupies is accepted (a tighter rule raised a false alarm, see DESIGN.md section 9)
             let lo = r.stats.stmt_lines[e.stmt];
             let hi = r.stats.stmt_end_lines[e.stmt].max(lo);
+            // the report must name the value and the target (in whatever wording) on a line of the statement
             let want_issue = issue_text(&e.value, &e.target);
-            let pos = diags.iter().enumerate().position(|(i, d)| !used[i] && d.issue == want_issue && d.line >= lo && d.line <= hi);
+            let vt = match &e.value {
+                Reported::Number(n) => number_text(*n),
+                Reported::Str(s) => s.clone(),
+            };
+            let names_it = |d: &rrss::linter::Diag| contains_token(&d.issue, &vt) && contains_token(&d.issue, &e.target);
+            let in_range = |d: &rrss::linter::Diag| d.line >= lo && d.line <= hi;
+            let pos = diags
+                .iter()
+                .enumerate()
+                .position(|(i, d)| !used[i] && in_range(d) && d.issue == want_issue)
+                .or_else(|| diags.iter().enumerate().position(|(i, d)| !used[i] && in_range(d) && names_it(d)));
             let i = match pos {
                 Some(i) => i,
                 None => {
                     return Outcome::fail(ctx(format!(
-                        "missing report: statement #{} (lines {}..={}) should be reported as {:?}",
-                        e.stmt, lo, hi, want_issue
+                        "missing report: statement #{} (lines {}..={}) should be reported, naming the value {:?} and the target {:?}",
+                        e.stmt, lo, hi, vt, e.target
                     )))
                 }
             };
@@ -151,89 +186,81 @@ impl Prop for C18 {
             if hi > lo {
                 labels.push("multi_line_statement".into());
             }
+            // every suggestion that shows a poetic literal (star-words, or `says` for strings) is examined, whatever its
+            // frame: the suggested line is what stands between the first and the last backtick, else the whole text
+            for sug in &d.suggestions {
+                let payload: &str = match (sug.find('`'), sug.rfind('`')) {
+                    (Some(a), Some(b)) if b > a => &sug[a + 1..b],
+                    _ => sug.as_str(),
+                };
+                match &e.value {
+                    Reported::Number(n) => {
+                        if !payload.contains('*') {
+                            continue;
+                        }
+                        if !has_poetic_spelling(&e.value) {
+                            return Outcome::fail(ctx(format!("value {:?} has no poetic spelling, yet a poetic suggestion is made: {:?}", e.value, sug)));
+                        }
+                        let cut = payload.rfind(|c: char| !(c == '*' || c == ' ' || c == '.')).map_or(0, |i| i + payload[i..].chars().next().map_or(1, |c| c.len_utf8()));
+                        let stars = payload[cut..].trim();
+                        let numeral = match stars_numeral(stars) {
+                            Some(x) => x,
+                            None => return Outcome::fail(ctx(format!("suggestion words {:?} are not star-words and periods", stars))),
+                        };
+                        if numeral != number_text(*n) {
+                            return Outcome::fail(ctx(format!("the suggested words spell {} but the reported value is {}", numeral, number_text(*n))));
+                        }
+                        labels.push("suggestion_spelling_checked".into());
+                        if let Some(var) = e.plain_variable.as_ref() {
+                            let line = payload.replace('*', "x");
+                            let read = if e.rock { format!("{} at 0", var.text()) } else { var.text() };
+                            let probe = Name::Simple(read);
+                            evals += 1;
+                            match run_suggestion(&line, &probe) {
+                                Ok(out) => {
+                                    let got: f64 = match out.trim_end().parse() {
+                                        Ok(v) => v,
+                                        Err(_) => return Outcome::fail(ctx(format!("the suggested line {:?} leaves {:?} in the variable", line, out))),
+                                    };
+                                    let exact = !numeral.contains('.') && *n < 9007199254740992.0;
+                                    let tol = if exact { 0 } else { 16u64 };
+                                    let dist = if got == *n { 0 } else { (got.to_bits() as i128 - n.to_bits() as i128).unsigned_abs() as u64 };
+                                    if dist > tol {
+                                        return Outcome::fail(ctx(format!("the suggested line {:?} gives {} but the reported value is {}", line, got, n)));
+                                    }
+                                    labels.push("suggestion_executed".into());
+                                }
+                                Err(m) => return Outcome::fail(ctx(format!("suggested line {:?}: {}", line, m))),
+                            }
+                        }
+                    }
+                    Reported::Str(text) => {
+                        if !payload.contains("says") && !payload.contains("said") {
+                            continue;
+                        }
+                        if !has_poetic_spelling(&e.value) {
+                            return Outcome::fail(ctx(format!("string {:?} cannot be a poetic string (line break), yet a poetic suggestion is made: {:?}", text, sug)));
+                        }
+                        if !payload.ends_with(text.as_str()) {
+                            return Outcome::fail(ctx(format!("string suggestion {:?} does not end in the reported text {:?}", payload, text)));
+                        }
+                        if let Some(var) = &e.plain_variable {
+                            evals += 1;
+                            match run_suggestion(payload, var) {
+                                Ok(out) => {
+                                    if out != format!("{}\n", text) {
+                                        return Outcome::fail(ctx(format!("the suggested line {:?} gives {:?} but the reported value is {:?}", payload, out, text)));
+                                    }
+                                    labels.push("suggestion_executed".into());
+                                }
+                                Err(m) => return Outcome::fail(ctx(format!("suggested line {:?}: {}", payload, m))),
+                            }
+                        }
+                    }
+                }
+            }
             if !has_poetic_spelling(&e.value) {
-                if !d.suggestions.is_empty() {
-                    return Outcome::fail(ctx(format!(
-                        "value {:?} has no poetic spelling, yet a suggestion is made: {:?}",
-                        e.value, d.suggestions
-                    )));
-                }
                 labels.push("no_suggestion_for_unspellable_value".into());
-                continue;
-            }
-            if d.suggestions.len() != 1 {
-                return Outcome::fail(ctx(format!("expected exactly one suggestion for statement #{}, got {:?}", e.stmt, d.suggestions)));
-            }
-            let s = &d.suggestions[0];
-            let payload = match s.strip_prefix("Consider using a poetic literal such as: `").and_then(|x| x.strip_suffix('`')) {
-                Some(p) => p,
-                None => return Outcome::fail(ctx(format!("suggestion has an unexpected frame: {:?}", s))),
-            };
-            match &e.value {
-                Reported::Number(n) => {
-                    let head = if e.rock { format!("Rock {} like ", e.target) } else { format!("{} is ", e.target) };
-                    let stars = match payload.strip_prefix(&head) {
-                        Some(x) => x,
-                        None => return Outcome::fail(ctx(format!("suggestion {:?} does not start with {:?}", payload, head))),
-                    };
-                    let numeral = match stars_numeral(stars) {
-                        Some(x) => x,
-                        None => return Outcome::fail(ctx(format!("suggestion words {:?} are not star-words and periods", stars))),
-                    };
-                    if numeral != number_text(*n) {
-                        return Outcome::fail(ctx(format!("the suggested words spell {} but the reported value is {}", numeral, number_text(*n))));
-                    }
-                    // literals with more than 300 digits on one side of the period lose digits (finding F12): spelling checked, not executed
-                    let (before, after) = match numeral.split_once('.') {
-                        Some((a, b)) => (a.len(), b.len()),
-                        None => (numeral.len(), 0),
-                    };
-                    let beyond_f12 = before > 300 || after > 300;
-                    if beyond_f12 {
-                        labels.push("suggestion_beyond_300_digits_not_executed".into());
-                    }
-                    if let Some(var) = e.plain_variable.as_ref().filter(|_| !beyond_f12) {
-                        let line = payload.replace('*', "x");
-                        let read = if e.rock { format!("{} at 0", var.text()) } else { var.text() };
-                        let probe = Name::Simple(read);
-                        evals += 1;
-                        match run_suggestion(&line, &probe) {
-                            Ok(out) => {
-                                let got: f64 = match out.trim_end().parse() {
-                                    Ok(v) => v,
-                                    Err(_) => return Outcome::fail(ctx(format!("the suggested line {:?} leaves {:?} in the variable", line, out))),
-                                };
-                                let digits = numeral.chars().filter(|c| c.is_ascii_digit()).count() as u64;
-                                let exact = !numeral.contains('.') && *n < 9007199254740992.0;
-                                let tol = if exact { 0 } else { 4u64.max(digits + 4) };
-                                let dist = if got == *n { 0 } else { (got.to_bits() as i128 - n.to_bits() as i128).unsigned_abs() as u64 };
-                                if dist > tol {
-                                    return Outcome::fail(ctx(format!("the suggested line {:?} gives {} but the reported value is {}", line, got, n)));
-                                }
-                                labels.push("suggestion_executed".into());
-                            }
-                            Err(m) => return Outcome::fail(ctx(format!("suggested line {:?}: {}", line, m))),
-                        }
-                    }
-                }
-                Reported::Str(text) => {
-                    let want = format!("{} says {}", e.target, text);
-                    if payload != want {
-                        return Outcome::fail(ctx(format!("string suggestion {:?} differs from {:?}", payload, want)));
-                    }
-                    if let Some(var) = &e.plain_variable {
-                        evals += 1;
-                        match run_suggestion(payload, var) {
-                            Ok(out) => {
-                                if out != format!("{}\n", text) {
-                                    return Outcome::fail(ctx(format!("the suggested line {:?} gives {:?} but the reported value is {:?}", payload, out, text)));
-                                }
-                                labels.push("suggestion_executed".into());
-                            }
-                            Err(m) => return Outcome::fail(ctx(format!("suggested line {:?}: {}", payload, m))),
-                        }
-                    }
-                }
             }
         }
         let assignment_like = count_assignment_like(&c.prog);
@@ -255,7 +282,7 @@ impl Prop for C18 {
     fn expected_labels(&self) -> Vec<String> {
         [
             "reported:integer", "reported:fraction", "reported:negative", "reported:non_finite", "reported:string", "reported:string_with_line_break", "rock", "multi_line_statement",
-            "no_suggestion_for_unspellable_value", "suggestion_executed", "nothing_to_report",
+            "no_suggestion_for_unspellable_value", "suggestion_executed", "suggestion_spelling_checked", "nothing_to_report",
         ]
         .iter()
         .map(|s| s.to_string())
